@@ -35,7 +35,10 @@ def _float_token(f):
 
 
 def _enc_array(a, out):
-    out.append("A|%s|%s|" % (a.dtype.str, ",".join(map(str, a.shape))))
+    # C-contiguity and writeability are observable by the caller (buffer consumers, in-place
+    # use of the result) and must not depend on history any more than the numbers do
+    out.append("A|%s|%s|%s%s|" % (a.dtype.str, ",".join(map(str, a.shape)),
+                                  "C" if a.flags.c_contiguous else "s", "w" if a.flags.writeable else "r"))
     if a.dtype.kind == "O":
         for x in a.ravel().tolist():
             _enc(x, out)
